@@ -5,7 +5,7 @@ from pyvc.sym import (VInt, VBool, VStr, VRef, VOpt, INT, BOOL, STR, REF, TOpt, 
                       length, tobool, toint, tostr, fresh_name, vite)
 from contracts.common import add_common
 
-VERIFY = ["trees.treeoutput.export_tabs"]
+VERIFY = ["trees.treeoutput.export_tabs", "trees.treeoutput.export_format"]
 TRUSTED = []
 ASSUMPTIONS = ["int = mathematical integer; str = SMT string"]
 
@@ -15,8 +15,64 @@ def tabs_spec(n):
     return z3.If(n < 8, z3.StringVal("\t\t\t"), z3.If(n < 16, z3.StringVal("\t\t"), z3.StringVal("\t")))
 
 
+def ostr(H, x, key):
+    """optional string field with the documented default '--' for None"""
+    v = H.data(x, key)
+    return z3.If(v.isnone, z3.StringVal("--"), v.val.t)
+
+
 def build(reg):
     add_common(reg)
+    from contracts.c20 import add_get_label, get_label_spec, get_label_requires, GET_LABEL_PARAMS
+    from pyvc.core import int_to_str
+    add_get_label(reg)
+    EF_PARAMS = dict(GET_LABEL_PARAMS, export_four=BOOL)
+
+    def ef_requires(S, subtree, params):
+        H = S.H
+        p = H.parent(subtree)
+        word = H.data(subtree, "word")
+        return conj(get_label_requires(S, subtree, params),
+                    VBool(z3.And(H.has(subtree, "word").t, z3.Not(word.isnone),      # a node line has a word / #NNN
+                                 H.has(subtree, "morph").t, H.has(subtree, "lemma").t,
+                                 p.t != 0, H.has(p, "num").t)))
+
+    def ef_post(S, subtree, params, result):
+        """word TABS [lemma TABS] label TAB morph TABS edge TAB parent-number NEWLINE, absent optional fields
+        written as '--' (never a failure)"""
+        H0 = S.old
+        word = H0.data(subtree, "word").val.t
+        morph, lemma, edge = ostr(H0, subtree, "morph"), ostr(H0, subtree, "lemma"), ostr(H0, subtree, "edge")
+        label = get_label_spec(H0, subtree, params)
+        pnum = int_to_str(H0.data(H0.parent(subtree), "num").t)
+        T = tabs_spec
+        v3 = z3.Concat(word, T(z3.Length(word)), label, z3.StringVal("\t"), morph, T(z3.Length(morph) + 8), edge,
+                       z3.StringVal("\t"), pnum, z3.StringVal("\n"))
+        v4 = z3.Concat(word, T(z3.Length(word)), lemma, T(z3.Length(lemma)), label, z3.StringVal("\t"), morph,
+                       T(z3.Length(morph) + 8), edge, z3.StringVal("\t"), pnum, z3.StringVal("\n"))
+        return VBool(tostr(result) == z3.If(params.fields["has"]["export_four"], v4, v3))
+
+    def ef_frame(S, subtree, params, result):
+        """the only stores are the three defaults (None -> '--') on the node itself"""
+        H0, H1 = S.old, S.H
+        x = z3.Int(fresh_name("fx"))
+        conds = []
+        for k in ("edge", "morph", "lemma"):
+            conds.append(z3.ForAll([x], z3.Implies(x != subtree.t, z3.And(
+                z3.Select(H1.f["none_" + k], x) == z3.Select(H0.f["none_" + k], x),
+                z3.Select(H1.f["val_" + k], x) == z3.Select(H0.f["val_" + k], x),
+                z3.Select(H1.f["has_" + k], x) == z3.Select(H0.f["has_" + k], x)))))
+            conds.append(ostr(H1, subtree, k) == ostr(H0, subtree, k))
+        return VBool(z3.And(*conds))
+
+    reg.add(Contract(
+        target="trees.treeoutput.export_format", prop="C02", args=dict(subtree=REF), params=EF_PARAMS,
+        requires=ef_requires,
+        modifies=["none_edge", "val_edge", "has_edge", "none_morph", "val_morph", "has_morph",
+                  "none_lemma", "val_lemma", "has_lemma"],
+        ensures={"line_format_with_defaults": ef_post, "stores_only_defaults": ef_frame},
+        result_type=STR))
+
     reg.add(Contract(
         target="trees.treeoutput.export_tabs", prop="C02", args=dict(length=INT),
         requires=lambda S, length: VBool(length.t >= 0),
